@@ -910,7 +910,7 @@ func main() {
 		Rule: "function level: numeric.Interleave/Deinterleave, geo.MortonHash/MortonUnhashLon/Lat on grid-boundary values (0, 2^32-1, powers of two +-1, multiples of 2^18 and those minus one = corners of the recursion's cells), decoded grid points +-1 ulp, coordinate bounds, random; searcher.ComputeGeoRange term lists for boxes from 1e-7 to ~1 degree whose edges keep 0.2 grid steps away from cell corners (re-checked in Coq); " +
 			"API level (scorch, scorch+s2 plugin, upsidedown; 4-9 documents with 0-3 points each, several batches): bounding boxes tiny to world-wide, date-line crossing, edges on the coordinate bounds or on decoded cell corners, probe points at edge +- {0,3e-8..1e-3} degrees, on level-14 cell boundaries, at +-180/+-90; distance queries 1 m .. 20000 km incl. pole-containing and date-line crossing circles, probe points at radius*(1 +- {0,1e-9..0.3}); simple convex/concave polygons of either orientation with probes near vertices and edges; distance sort asc/desc on single-valued documents; " +
 			"non-trivial: non-zero function inputs, range cases with both term lists non-empty, scenes whose hits are neither none nor all or that contain a multi-valued document, sorts that reorder",
-		ShardSize: 20,
+		ShardSize: 60,
 		// every number of a case is printed in constructor form; with Z_scope open Coq 8.16 takes ~50 ms
 		// to interpret each deeply nested constructor term, with it closed ~1 ms
 		Preamble: "Local Close Scope Z_scope.\n",
